@@ -15,6 +15,9 @@ Definition CR : N := 13.
 Definition LF : N := 10.
 Definition SP : N := 32.
 Definition COLON : N := 58.
+Definition TAB : N := 9.
+(** optional whitespace (RFC 9110 OWS): space or horizontal tab *)
+Definition ows (c : N) : bool := (c =? SP) || (c =? TAB).
 
 (** [kvarn_utils::parse::Error] classes, [io::ErrorKind] classes of the body reader. *)
 Definition E_HTTP : N := 1.
@@ -186,17 +189,25 @@ Definition parse_uri (https : bool) (host target : bytes) : option (bytes * byte
 
 (** ** [kvarn_utils::parse::headers] *)
 
-Fixpoint position_non_space (l : bytes) : option nat :=
+Fixpoint position_non_ows (l : bytes) : option nat :=
   match l with
   | [] => None
-  | c :: r => if c =? SP then option_map S (position_non_space r) else Some O
+  | c :: r => if ows c then option_map S (position_non_ows r) else Some O
   end.
-(** [rest.iter().position(|b| b != ' ').unwrap_or(0) + pos] with [rest = &bytes[pos..]] *)
+(** [rest.iter().position(|b| b != ' ' && b != '\t').unwrap_or(0) + pos] with [rest = &bytes[pos..]] *)
 Definition value_start_from (all : bytes) (pos : nat) : nat :=
-  match position_non_space (skipn pos all) with Some i => (i + pos)%nat | None => pos end.
-(** [bytes.get(pos + 1) == Some(&SPACE)] *)
-Definition next_is_space (all : bytes) (pos : nat) : bool :=
-  match nth_error all (S pos) with Some c => c =? SP | None => false end.
+  match position_non_ows (skipn pos all) with Some i => (i + pos)%nat | None => pos end.
+(** [matches!(bytes.get(pos + 1), Some(SPACE | TAB))] *)
+Definition next_is_ows (all : bytes) (pos : nat) : bool :=
+  match nth_error all (S pos) with Some c => ows c | None => false end.
+(** [while value_end > value_start && matches!(bytes[value_end - 1], SPACE | TAB) { value_end -= 1 }] *)
+Fixpoint trim_end (all : bytes) (vs ve : nat) : nat :=
+  match ve with
+  | O => O
+  | S p =>
+      if (vs <? ve)%nat && match nth_error all p with Some c => ows c | None => false end
+      then trim_end all vs p else ve
+  end.
 (** [pos > 0 && bytes[pos - 1] == CR] *)
 Definition prev_is_cr (all : bytes) (pos : nat) : bool :=
   match pos with
@@ -223,7 +234,7 @@ Fixpoint hdr_loop (all rest : bytes) (pos : nat) (inval : bool) (lf ns ne vs : n
                 match header_name raw with
                 | None => Err E_ILLEGAL_NAME
                 | Some name =>
-                    let value_end := if prev_is_cr all pos then (pos - 1)%nat else pos in
+                    let value_end := trim_end all vs (if prev_is_cr all pos then (pos - 1)%nat else pos) in
                     match slice_chk vs value_end all with
                     | Ok v =>
                         if hvalue_ok v
@@ -236,10 +247,10 @@ Fixpoint hdr_loop (all rest : bytes) (pos : nat) (inval : bool) (lf ns ne vs : n
             end
           else hdr_loop all rest' (S pos) true lf' ns ne vs m
         else if byte =? COLON then
-          if next_is_space all pos
+          if next_is_ows all pos
           then hdr_loop all rest' (S pos) false lf' ns pos vs m
           else hdr_loop all rest' (S pos) true lf' ns pos (S pos) m
-        else if byte =? SP then
+        else if ows byte then
           hdr_loop all rest' (S pos) true lf' ns ne (value_start_from all pos) m
         else hdr_loop all rest' (S pos) false lf' ns ne vs m
   end.
@@ -372,8 +383,18 @@ Definition start_tokens : list bytes := Eval vm_compute in
   [B "GET"; B "HEAD"; B "POST"; B "PUT"; B "DELETE"; B "TRACE"; B "OPTIONS"; B "CONNECT"; B "PATCH";
    B "COPY"; B "LOCK"; B "MKCOL"; B "MOVE"; B "PROPFIND"; B "PROPPATCH"; B "UNLOCK";
    B "HTTP/0.9"; B "HTTP/1.0"; B "HTTP/1.1"; B "HTTP/2"; B "HTTP/3"].
+(** the last clause of [utils::valid_method]: the first space is among the first eight bytes and
+    what precedes it is a method token ([Method::from_bytes(..).is_ok()]: non-empty, token bytes) *)
+Fixpoint ext_method (fuel : nat) (seen : bool) (b : bytes) {struct b} : bool :=
+  match b with
+  | [] => false
+  | c :: r =>
+      if c =? SP then seen
+      else match fuel with O => false | S f => tchar c && ext_method f true r end
+  end.
 (** [utils::valid_method(b) || utils::valid_version(b)] *)
-Definition valid_start (b : bytes) : bool := existsb (fun t => starts_with t b) start_tokens.
+Definition valid_start (b : bytes) : bool :=
+  existsb (fun t => starts_with t b) start_tokens || ext_method 7 false b.
 
 (** [contains_two_newlines], started with [in_row]. *)
 Fixpoint ctn (in_row : bool) (b : bytes) : bool :=
@@ -492,6 +513,92 @@ Section Growth.
     | Err e => Ok (mk_served q (Err e) 0)
     | Panic => Panic
     end).
+
+  (** ** [Http1Body] as the state machine it is: [AsyncRead::poll_read], [read_to_bytes], [drain] *)
+
+  (** [bytes] (read with the head), [offset], [content_length], [unread] *)
+  Record hbody := mk_hbody { hb_bytes : bytes; hb_offset : nat; hb_cl : nat; hb_unread : nat }.
+  (** [Http1Body::new] *)
+  Definition hb_new (early : bytes) (cl : nat) : hbody := mk_hbody early 0 cl (cl - length early).
+
+  (** one [read(&mut buf[..window])] = one [poll_read]: the bytes it hands out, the new state, the connection *)
+  Definition hb_read (mode : N) (b : hbody) (r : reader) (window : nat) : outcome (bytes * hbody * reader) :=
+    let left := (hb_cl b - hb_offset b)%nat in
+    if (left =? 0)%nat then Ok ([], b, r)
+    else if (hb_offset b <? length (hb_bytes b))%nat then
+      let n := Nat.min (Nat.min window (length (hb_bytes b) - hb_offset b)) left in
+      Ok (firstn n (skipn (hb_offset b) (hb_bytes b)),
+          mk_hbody (hb_bytes b) (hb_offset b + n) (hb_cl b) (hb_unread b), r)
+    else
+      match rd_read mode r (Nat.min window left) with
+      | RdStall => Err E_TIMEDOUT
+      | RdErr => Err E_IO
+      | RdOk got r' =>
+          Ok (got, mk_hbody (hb_bytes b) (hb_offset b + length got) (hb_cl b) (hb_unread b - length got), r')
+      end.
+
+  (** [drain]: the body is given up ([content_length = 0]: later reads get nothing); discards [unread] bytes in
+      windows of at most 4096; a connection that ends first is an error ([UnexpectedEof], an I/O error class) *)
+  Fixpoint drain_loop (fuel : nat) (mode : N) (unread : nat) (r : reader) : outcome reader :=
+    match fuel with
+    | O => Err E_FUEL
+    | S f =>
+        if (unread =? 0)%nat then Ok r else
+        match rd_read mode r (Nat.min (N.to_nat 4096) unread) with
+        | RdStall => Err E_TIMEDOUT
+        | RdErr => Err E_IO
+        | RdOk got r' => if null got then Err E_IO else drain_loop f mode (unread - length got) r'
+        end
+    end.
+  Definition hb_drain (mode : N) (b : hbody) (r : reader) : outcome (hbody * reader) :=
+    match drain_loop (S (hb_unread b)) mode (hb_unread b) r with
+    | Ok r' => Ok (mk_hbody (hb_bytes b) (hb_offset b) 0 0, r')
+    | Err e => Err e
+    | Panic => Panic
+    end.
+
+  (** [read_to_bytes(limit)] in any state: what is left of the body ([content_length - offset], capped), first from
+      the bytes read with the head, then from the connection; afterwards [content_length = 0] ("don't return anything
+      next time we are called") and [unread] is less what was taken from the connection.  With nothing left or
+      [limit = 0] it returns at once and changes nothing. *)
+  Definition hb_read_to_bytes (mode : N) (b : hbody) (r : reader) (limit : N) : outcome (bytes * hbody * reader) :=
+    let left := (hb_cl b - hb_offset b)%nat in
+    if (N.to_nat (N.min (N.of_nat left) limit) =? 0)%nat then Ok ([], b, r) else
+    match read_to_bytes mode (skipn (hb_offset b) (hb_bytes b)) (N.of_nat left) limit r with
+    | Ok (body, r') =>
+        let taken := (length (rd_data r) - length (rd_data r'))%nat in
+        Ok (body, mk_hbody (hb_bytes b) (hb_offset b + length body) 0 (hb_unread b - taken), r')
+    | Err e => Err e
+    | Panic => Panic
+    end.
+
+  (** a handler's calls, in order; the first error ends the run *)
+  Inductive hop := HRead (window : nat) | HRtb (limit : N) | HDrain.
+  Fixpoint hb_run (mode : N) (b : hbody) (r : reader) (ops : list hop) : list (outcome bytes) * reader :=
+    match ops with
+    | [] => ([], r)
+    | op :: ops' =>
+        match (match op with
+               | HRead w => hb_read mode b r w
+               | HRtb limit => hb_read_to_bytes mode b r limit
+               | HDrain => match hb_drain mode b r with Ok (b', r') => Ok ([], b', r') | Err e => Err e | Panic => Panic end
+               end) with
+        | Ok (got, b', r') => let (outs, rf) := hb_run mode b' r' ops' in (Ok got :: outs, rf)
+        | Err e => ([Err e], r)
+        | Panic => ([Panic], r)
+        end
+    end.
+  (** the reads alone: what a sequence of [read] calls with the given windows hands out *)
+  Fixpoint hb_reads (mode : N) (b : hbody) (r : reader) (ws : list nat) : bytes * hbody * reader * option N :=
+    match ws with
+    | [] => ([], b, r, None)
+    | w :: ws' =>
+        match hb_read mode b r w with
+        | Ok (got, b', r') => let '(data, bf, rf, e) := hb_reads mode b' r' ws' in (got ++ data, bf, rf, e)
+        | Err e => ([], b, r, Some e)
+        | Panic => ([], b, r, Some E_FUEL)
+        end
+    end.
 End Growth.
 
 (** [Vec]'s amortised growth as [BytesMut::reserve] uses it. *)
@@ -579,16 +686,49 @@ Definition print_head_e (l0 : bool) (fl : list bool) (lb : bool) (g : greq) : by
   g_method g ++ [SP] ++ g_target g ++ [SP] ++ (if g_v11 g then v11 else v10) ++ eol l0
   ++ print_hlines_e fl (g_headers g) ++ eol lb.
 
+(** The general form of a header line (RFC 9110 5.5: [field-name ":" OWS field-value OWS]): after the [hl_sp] spaces
+    any further optional whitespace [d_pre] (spaces and tabs), after the value optional whitespace [d_post], and the
+    line ends in CRLF or ([d_lf]) in a bare LF. *)
+Record deco := mk_deco { d_pre : bytes; d_post : bytes; d_lf : bool }.
+Definition deco0 : deco := mk_deco [] [] false.
+Definition print_hline_d (d : deco) (h : hline) : bytes :=
+  hl_name h ++ [COLON] ++ (repeat SP (hl_sp h) ++ d_pre d) ++ hl_value h ++ d_post d ++ eol (d_lf d).
+(** [ds]: one decoration per header line (missing ones = [deco0]: nothing added, CRLF) *)
+Fixpoint print_hlines_d (ds : list deco) (hs : list hline) : bytes :=
+  match hs with
+  | [] => []
+  | h :: hs' => print_hline_d (hd deco0 ds) h ++ print_hlines_d (tl ds) hs'
+  end.
+Definition print_head_d (l0 : bool) (ds : list deco) (lb : bool) (g : greq) : bytes :=
+  g_method g ++ [SP] ++ g_target g ++ [SP] ++ (if g_v11 g then v11 else v10) ++ eol l0
+  ++ print_hlines_d ds (g_headers g) ++ eol lb.
+(** whitespace only; whitespace after an empty value is whitespace before it *)
+Definition deco_ok (d : deco) (h : hline) : bool :=
+  forallb ows (d_pre d) && forallb ows (d_post d) && (negb (null (hl_value h)) || null (d_post d)).
+Fixpoint decos_ok (ds : list deco) (hs : list hline) : bool :=
+  match hs with
+  | [] => true
+  | h :: hs' => deco_ok (hd deco0 ds) h && decos_ok (tl ds) hs'
+  end.
+Definition deco_of_lf (lf : bool) : deco := mk_deco [] [] lf.
+
 Definition plain (c : N) : bool := negb ((c =? SP) || (c =? CR) || (c =? LF)).
-Definition visible_or_sp (c : N) : bool := (32 <=? c) && (c <? 127).
+(** a field value (RFC 9110 5.5): visible bytes, obs-text (>= 128), SP and HTAB inside; it neither starts nor ends
+    with whitespace (that would be the optional whitespace around it) *)
+Fixpoint last_not_ows (v : bytes) : bool :=
+  match v with
+  | [] => true
+  | [c] => negb (ows c)
+  | _ :: r => last_not_ows r
+  end.
 Definition value_ok (v : bytes) : bool :=
-  forallb visible_or_sp v && match v with c :: _ => negb (c =? SP) | [] => true end.
+  forallb hvalue_byte v && match v with c :: _ => negb (ows c) | [] => true end && last_not_ows v.
 Definition name_ok (n : bytes) : bool :=
   negb (null n) && forallb tchar n && (N.of_nat (length n) <=? 65535).
 Fixpoint nodup_b (l : list bytes) : bool :=
   match l with [] => true | x :: r => negb (existsb (beq x) r) && nodup_b r end.
 Definition greq_ok (g : greq) : bool :=
-  valid_start (g_method g) && (length (g_method g) <=? 7)%nat && forallb tchar (g_method g)
+  negb (null (g_method g)) && (length (g_method g) <=? 7)%nat && forallb tchar (g_method g)
   && negb (null (g_target g)) && forallb plain (g_target g)
   && forallb (fun h => name_ok (hl_name h) && value_ok (hl_value h)) (g_headers g)
   && nodup_b (map (fun h => lower (hl_name h)) (g_headers g)).
@@ -688,20 +828,35 @@ Definition run_headers (x : xval) : xval :=
     exactly [v] on the compared fields (for h1.request: the six request fields, the body outcome
     and the head end [k]: the early bytes must be the bytes of the stream from [k] on); (L (N 1)) = it must answer an error;
     (L (N 7)) = the property says nothing about this input (except: no panic). *)
-Definition d_hline (x : xval) : option hline :=
+(** a header line with its decoration: (L name sp value) or (L name sp value pre post lf) *)
+Definition d_hline (x : xval) : option (hline * deco) :=
   match x with
-  | XL [XB n; XN k; XB v] => Some (mk_hline n (N.to_nat k) v)
-  | _ => None
-  end.
-Definition d_greq (x : xval) : option greq :=
-  match x with
-  | XL [XB m; XB t; v; hs] =>
-      match d_bool v, d_list d_hline hs with
-      | Some v11, Some l => Some (mk_greq m t v11 l)
-      | _, _ => None
+  | XL [XB n; XN k; XB v] => Some (mk_hline n (N.to_nat k) v, deco0)
+  | XL [XB n; XN k; XB v; XB pre; XB post; lf] =>
+      match d_bool lf with
+      | Some lf => Some (mk_hline n (N.to_nat k) v, mk_deco pre post lf)
+      | None => None
       end
   | _ => None
   end.
+(** a printed request: (L method target v11 (L line..)) or (L method target v11 (L line..) l0 lb) *)
+Record dreq := mk_dreq { dq_g : greq; dq_l0 : bool; dq_ds : list deco; dq_lb : bool }.
+Definition d_greq (x : xval) : option dreq :=
+  match x with
+  | XL [XB m; XB t; v; hs] =>
+      match d_bool v, d_list d_hline hs with
+      | Some v11, Some l => Some (mk_dreq (mk_greq m t v11 (map fst l)) false (map snd l) false)
+      | _, _ => None
+      end
+  | XL [XB m; XB t; v; hs; l0; lb] =>
+      match d_bool v, d_list d_hline hs, d_bool l0, d_bool lb with
+      | Some v11, Some l, Some l0, Some lb => Some (mk_dreq (mk_greq m t v11 (map fst l)) l0 (map snd l) lb)
+      | _, _, _, _ => None
+      end
+  | _ => None
+  end.
+Definition dreq_ok (q : dreq) : bool := greq_ok (dq_g q) && decos_ok (dq_ds q) (g_headers (dq_g q)).
+Definition dreq_head (q : dreq) : bytes := print_head_d (dq_l0 q) (dq_ds q) (dq_lb q) (dq_g q).
 
 (** The segmentation-blind verdict: what [serve_spec] says about the delivered bytes
     (only for schedules of non-empty bursts; a 0-byte burst is an EOF to the reader). *)
@@ -732,9 +887,10 @@ Definition run_request_spec (x : xval) : xval :=
           else
             match og with
             | None => blind
-            | Some g =>
-                let head := print_head g in
-                if greq_ok g && starts_with head stream && (length head <=? N.to_nat max_len)%nat then
+            | Some dq =>
+                let g := dq_g dq in
+                let head := dreq_head dq in
+                if dreq_ok dq && starts_with head stream && (length head <=? N.to_nat max_len)%nat then
                   let rest := skipn (length head) stream in
                   match expect https dh limit g rest with
                   | None => blind
@@ -785,10 +941,10 @@ Definition run_headers_spec (x : xval) : xval :=
       match d_option (d_list d_hline) ohs with
       | Some None => XL [XN 7]
       | Some (Some []) => XL [XN 7]       (* [request] never calls [parse::headers] without a header line *)
-      | Some (Some hs) =>
-          let g := mk_greq m_get [47] true hs in
-          let block := concat (map print_hline hs) ++ crlf in
-          if greq_ok g && starts_with block b
+      | Some (Some hds) =>
+          let g := mk_greq m_get [47] true (map fst hds) in
+          let block := print_hlines_d (map snd hds) (map fst hds) ++ crlf in
+          if greq_ok g && decos_ok (map snd hds) (map fst hds) && starts_with block b
           then XL [XN 0; XL [x_hmap (g_hmap g); x_nat (length block)]]
           else XL [XN 7]
       | None => bad_input
@@ -801,6 +957,90 @@ Definition run_headers2 (x : xval) : xval :=
   | _ => run_headers x
   end.
 
+(** component h1.poll: (L early content_length end_mode stream (L burst..) (L op..)),
+    op = (N window) | (L (N limit)) | (L) (drain); output (L (L outcome..) consumed), consumed = 0 after an error *)
+Definition d_hop (x : xval) : option hop :=
+  match x with
+  | XN w => Some (HRead (N.to_nat w))
+  | XL [XN limit] => Some (HRtb limit)
+  | XL [] => Some HDrain
+  | _ => None
+  end.
+Definition run_poll (x : xval) : xval :=
+  match x with
+  | XL [XB early; XN cl; XN mode; XB stream; s; ops] =>
+      match d_sched s, d_list d_hop ops with
+      | Some sched, Some ops =>
+          let (outs, r') := hb_run vec_grow mode (hb_new early (N.to_nat cl)) (mk_reader stream sched) ops in
+          XL [x_list (x_outcome XB) outs;
+              if forallb (fun o => match o with Ok _ => true | _ => false end) outs
+              then x_nat (length stream - length (rd_data r')) else XN 0]
+      | _, _ => bad_input
+      end
+  | _ => bad_input
+  end.
+(** spec for h1.poll: the declared body as far as it is delivered, and how many of its bytes are on the connection:
+    whatever is handed out, in whatever pieces, is a prefix of the first; never more than the second is taken *)
+Definition run_poll_spec (x : xval) : xval :=
+  match x with
+  | XL [XB early; XN cl; XN mode; XB stream; s; ops] =>
+      match d_sched s with
+      | Some sched =>
+          XL [XB (firstn (N.to_nat cl) (early ++ firstn (sum_sched sched) stream)); x_nat (N.to_nat cl - length early)]
+      | None => bad_input
+      end
+  | _ => bad_input
+  end.
+
+(** components h1.accept: (L (L [default_host]) (L step..) limit end [request]) and h1.echo: (L (L step..) limit end
+    [request]); step = (B bytes written) | (N pause); the kernel cuts the stream as it likes, so the model reads it in one
+    burst (theorem segmentation_blind: the view does not depend on the cuts).  The head limit (16 KiB), the scheme and, for
+    h1.echo, the default host are the code's. *)
+Definition accept_max_len : N := 16384.
+Definition echo_host : bytes := Eval vm_compute in B "echo.host".
+Fixpoint steps_stream (l : list xval) : bytes :=
+  match l with
+  | [] => []
+  | XB b :: r => b ++ steps_stream r
+  | _ :: r => steps_stream r
+  end.
+Definition accept_input (dh : xval) (steps : list xval) (limit end_ : N) (og : xval) : xval :=
+  let stream := steps_stream steps in
+  XL [XN 0; dh; XN accept_max_len; XN (if end_ =? 0 then 0 else 1); XB stream;
+      XL (if null stream then [] else [x_nat (length stream)]); XN limit; og].
+Definition x_view (o : outcome view) : xval :=
+  match o with
+  | Ok w => XL [XN 0; XL (x_request_fields (w_method w) (w_path w) (w_query w) (w_version w) (w_headers w) (w_authority w)
+                          ++ [x_outcome XB (w_body w)])]
+  | Err e => XL [XN 1; XN e]
+  | Panic => XL [XN 2]
+  end.
+Definition run_view (x : xval) : outcome view :=
+  match x with
+  | XL [h; d; XN max_len; XN mode; XB stream; s; XN limit; _] =>
+      match d_bool h, d_option d_B d, d_sched s with
+      | Some https, Some dh, Some sched =>
+          result_view (serve vec_grow mode https dh (N.to_nat max_len) limit stream sched)
+      | _, _, _ => Panic
+      end
+  | _ => Panic
+  end.
+Definition run_accept (x : xval) : xval :=
+  match x with
+  | XL [dh; XL steps; XN limit; XN end_; og] => XL [x_view (run_view (accept_input dh steps limit end_ og)); XN 0]
+  | _ => bad_input
+  end.
+Definition run_echo (x : xval) : xval :=
+  match x with
+  | XL [XL steps; XN limit; XN end_; og] =>
+      XL [match run_view (accept_input (XL [XB echo_host]) steps limit end_ og) with
+          | Ok w => x_view (Ok w)
+          | Err _ => XL [XN 1; XN 0]
+          | Panic => XL [XN 2]
+          end; XN 0]
+  | _ => bad_input
+  end.
+
 Definition http1read_table : list (bytes * (xval -> xval)) :=
   [ (B "h1.request", fun x => match x with
                               | XL [h; d; ml; mo; st; s; li; _] => run_request (XL [h; d; ml; mo; st; s; li])
@@ -810,4 +1050,17 @@ Definition http1read_table : list (bytes * (xval -> xval)) :=
     (B "h1.body", run_body);
     (B "h1.body.spec", run_body_spec);
     (B "h1.headers", run_headers2);
-    (B "h1.headers.spec", run_headers_spec) ].
+    (B "h1.headers.spec", run_headers_spec);
+    (B "h1.poll", run_poll);
+    (B "h1.poll.spec", run_poll_spec);
+    (B "h1.accept", run_accept);
+    (B "h1.accept.spec", fun x => match x with
+                                  | XL [dh; XL steps; XN limit; XN end_; og] => run_request_spec (accept_input dh steps limit end_ og)
+                                  | _ => bad_input
+                                  end);
+    (B "h1.echo", run_echo);
+    (B "h1.echo.spec", fun x => match x with
+                                | XL [XL steps; XN limit; XN end_; og] =>
+                                    run_request_spec (accept_input (XL [XB echo_host]) steps limit end_ og)
+                                | _ => bad_input
+                                end) ].
